@@ -833,9 +833,9 @@ theorem parseDecls_complete {pre rest : List Tok} {ds : List Decl} (h : DDecls p
     rw [ih hr f (by omega)]
     simp
 
-/-- completeness of the start rule -/
-theorem parseMal_complete {pre rest : List Tok} {ds : List Decl} (h : DDecls pre rest ds) (hr : StopsAt rest)
-    (hne : pre ≠ [] ∨ rest = []) : parseMal (pre ++ rest) = some ds := by
+/-- completeness of the start rule as written (prefix parser) -/
+theorem parseMalPrefix_complete {pre rest : List Tok} {ds : List Decl} (h : DDecls pre rest ds) (hr : StopsAt rest)
+    (hne : pre ≠ [] ∨ rest = []) : parseMalPrefix (pre ++ rest) = some ds := by
   cases h with
   | nil =>
     rcases hne with h | rfl
@@ -847,8 +847,57 @@ theorem parseMal_complete {pre rest : List Tok} {ds : List Decl} (h : DDecls pre
       (by simp only [List.length_append]; omega) []
     rw [hp1] at hcomp ⊢
     simp only [List.cons_append, List.nil_append] at hcomp ⊢
-    unfold parseMal
+    unfold parseMalPrefix
     simp only [hs, if_true]
     exact hcomp
+
+theorem parseDeclsRest_complete {pre rest : List Tok} {ds : List Decl} (h : DDecls pre rest ds) (hr : StopsAt rest)
+    (f : Nat) (hf : 2 * pre.length + 2 ≤ f) (acc : List Decl) :
+    parseDeclsRest f acc (pre ++ rest) = some (acc ++ ds, rest) := by
+  induction h generalizing f acc with
+  | nil =>
+    obtain ⟨f, rfl⟩ : ∃ g, f = g + 1 := ⟨f - 1, by omega⟩
+    simp only [List.nil_append, List.append_nil]
+    rcases hr with rfl | ⟨t, r, rfl, hs⟩
+    · exact parseDeclsRest_nil _ _
+    · exact parseDeclsRest_stop _ _ _ _ hs
+  | @cons p1 p2 _ d ds' hd hds ih =>
+    simp only [List.length_append] at hf
+    obtain ⟨t, r, hp1, hs⟩ := ddecl_head hd
+    have h1 : 1 ≤ p1.length := by rw [hp1]; simp
+    obtain ⟨f, rfl⟩ : ∃ g, f = g + 1 := ⟨f - 1, by omega⟩
+    have hcomp := parseDecl_complete hd f (by omega)
+    simp only [List.append_assoc]
+    rw [hp1] at hcomp ⊢
+    simp only [List.cons_append] at hcomp ⊢
+    rw [parseDeclsRest_cons _ _ _ _ hs, hcomp]
+    simp only [Option.bind_some]
+    rw [ih hr f (by omega)]
+    simp
+
+/-- completeness of `parser.mal()`: a derivable prefix that ends where no declaration can start is consumed, and
+exactly the tokens after it are left in the stream -/
+theorem parseMalRest_complete {pre rest : List Tok} {ds : List Decl} (h : DDecls pre rest ds) (hr : StopsAt rest)
+    (hne : pre ≠ [] ∨ rest = []) : parseMalRest (pre ++ rest) = some (ds, rest) := by
+  cases h with
+  | nil =>
+    rcases hne with h | rfl
+    · exact absurd rfl h
+    · rfl
+  | @cons p1 p2 _ d ds' hd hds =>
+    obtain ⟨t, r, hp1, hs⟩ := ddecl_head hd
+    have hcomp := parseDeclsRest_complete (.cons hd hds) hr (2 * (p1 ++ p2 ++ rest).length + 8)
+      (by simp only [List.length_append]; omega) []
+    rw [hp1] at hcomp ⊢
+    simp only [List.cons_append, List.nil_append] at hcomp ⊢
+    unfold parseMalRest
+    simp only [hs, if_true]
+    exact hcomp
+
+/-- completeness of the compiler's verdict: a token list derivable as a whole by `declaration*` is accepted -/
+theorem parseMal_complete {ts : List Tok} {ds : List Decl} (h : DDecls ts [] ds) : parseMal ts = some ds := by
+  have := parseMalRest_complete h (.inl rfl) (.inr rfl)
+  rw [List.append_nil] at this
+  exact (parseMal_eq_some_iff ts ds).mpr this
 
 end MalVerif.Mal
